@@ -889,6 +889,7 @@ def c11_index_case(res, case, tier):
     rng = onp.random.Generator(onp.random.PCG64(case["wseed"]))
     w = rng.standard_normal(sel.shape)
     expected = onp.bincount(onp.asarray(ids).ravel(), weights=w.ravel(), minlength=x.size).reshape(x.shape) if x.size else onp.zeros(x.shape)
+    h_idx = vhash(common.leaves([idx]))  # index arrays / lists are the caller's objects
     with warnings.catch_warnings():
         warnings.simplefilter("ignore")
         try:
@@ -896,6 +897,8 @@ def c11_index_case(res, case, tier):
             got = vjp(w)
         except Exception as e:
             return _nj(res, "raised:" + type(e).__name__)
+        if vhash(common.leaves([idx])) != h_idx:
+            return _viol(res, sig, "foreign_write", case, "the caller's index object was modified by differentiating x[idx]: now %s" % common.brief(idx, 200))
         if not common.values_equal_nan(onp.asarray(y), sel):
             return _viol(res, sig, "primal_mismatch", case, "x[idx] under tracing differs from NumPy")
         if find_boxes(got):
